@@ -200,7 +200,7 @@ func c05Execute(in c05In) *c05Trace {
 	closedSeen := false
 	closerDone := -1 // ran length when the closer that set isClosed returned
 	setter := -1     // client that parked at ops.close.unlocked
-	acceptedAtDone := map[int]int{}
+	doneStart := map[int]int{} // Done client -> number of ops accepted when its call started
 
 	statuses := func() []string {
 		out := make([]string, n+1)
@@ -220,7 +220,13 @@ func c05Execute(in c05In) *c05Trace {
 	}
 
 	doStep := func(t int) {
-		q0, _, _ := ops.Snapshot()
+		q0, _, closed0 := ops.Snapshot()
+		// a Done call starts with this step: everything accepted so far was
+		// "queued before the wait" (however Done implements the wait)
+		startMark := -1
+		if t < n && in.Progs[t][0] == 1 && !closed0 && s.Status(t) == "idle" {
+			startMark = nextID
+		}
 		mu.Lock()
 		pending = nil
 		mu.Unlock()
@@ -272,7 +278,6 @@ func c05Execute(in c05In) *c05Trace {
 				mu.Unlock()
 			} else {
 				tr.waiterOf[id] = t
-				acceptedAtDone[t] = id
 			}
 			if closedSeen {
 				fail("accepted-after-close", fmt.Sprintf("op %d accepted although isClosed was set", id))
@@ -280,6 +285,9 @@ func c05Execute(in c05In) *c05Trace {
 		}
 		if closed {
 			closedSeen = true
+		}
+		if startMark >= 0 {
+			doneStart[t] = startMark
 		}
 		sts := statuses()
 		if t < n && in.Progs[t][0] == 2 && sts[t] == "parked:ops.close.unlocked" {
@@ -318,10 +326,12 @@ func c05Execute(in c05In) *c05Trace {
 				fail("op-skipped", fmt.Sprintf("ran %v but ops up to %d were accepted earlier", ranNow, last))
 			}
 		}
-		// Done returned: everything accepted before its own op has run
-		for c, wid := range acceptedAtDone {
+		// Done returned: everything accepted before the call started has run
+		// (the mark is taken when the call starts, not from the waiter op Done
+		// happens to push, so a Done that waits by other means is checked too)
+		for c, mark := range doneStart {
 			if sts[c] == "finished" {
-				for id := 0; id < wid; id++ {
+				for id := 0; id < mark; id++ {
 					if _, w := tr.waiterOf[id]; w {
 						continue
 					}
@@ -330,10 +340,10 @@ func c05Execute(in c05In) *c05Trace {
 						found = found || r == id
 					}
 					if !found {
-						fail("done-returned-before-earlier-op-ran", fmt.Sprintf("Done (op %d) returned, op %d has not run", wid, id))
+						fail("done-returned-before-earlier-op-ran", fmt.Sprintf("Done of client %d (started with %d ops accepted) returned, op %d has not run", c, mark, id))
 					}
 				}
-				delete(acceptedAtDone, c)
+				delete(doneStart, c)
 			}
 		}
 		codes := make([]int, n+1)
@@ -549,6 +559,9 @@ func init() {
 				{0, [][2]int{{0, 0}, {3, 0}}},
 				{0, [][2]int{{0, 0}, {3, 0}, {2, 0}}},
 				{-1, [][2]int{{0, 0}, {1, 0}, {2, 0}}}, // the configuration of the repaired defect
+				// an op enqueued by the negotiation-needed callback in the worker's
+				// tail (as PeerConnection.onNegotiationNeeded does) while a Done waits
+				{0, [][2]int{{0, 0}, {3, 0}, {1, 0}}},
 			}
 			if argTier() == "thorough" {
 				cfgs = append(cfgs,
